@@ -3726,6 +3726,29 @@ impl RaftNode {
         (prev_log_index, prev_log_term, entries, block_embedding)
     }
 
+    /// Verification hook: (`next_index`, `match_index`) the leader records for `peer`.
+    #[cfg(feature = "neumann_verif")]
+    #[must_use]
+    pub fn verif_replication_state(&self, peer: &NodeId) -> Option<(u64, u64)> {
+        let leadership = self.leadership.read();
+        let ls = leadership.leader_volatile.as_ref()?;
+        Some((
+            ls.next_index.get(peer).copied()?,
+            ls.match_index.get(peer).copied()?,
+        ))
+    }
+
+    /// Verification hook: (term, index) of every entry currently in the log, and `voted_for`.
+    #[cfg(feature = "neumann_verif")]
+    #[must_use]
+    pub fn verif_log_and_vote(&self) -> (Vec<(u64, u64)>, Option<NodeId>) {
+        let persistent = self.persistent.read();
+        (
+            persistent.log.iter().map(|e| (e.term, e.index)).collect(),
+            persistent.voted_for.clone(),
+        )
+    }
+
     // ========== Async Transport Methods ==========
 
     /// Send a message to a specific peer via transport.
